@@ -408,6 +408,11 @@ def step (line : String) : String :=
   | ["from_wif", s] => orBad do
       let s ← unstr s
       pure (optS (fun k => hexS (Keys.privBytes k)) (Keys.fromWif P0 s))
+  | ["wif_cycle", s] => orBad do
+      let s ← unstr s
+      pure (optS (fun k => hexS (Keys.privBytes k) ++ " " ++ " ".intercalate
+          ([(true, true), (false, false), (true, false), (false, true), (false, false), (true, true), (true, false),
+            (false, true)].map fun (c, t) => strS (Keys.wif P0 k c t))) (Keys.fromWif P0 s))
   | ["sec_parse", b] => orBad do
       let b ← unhex b
       pure (optS (fun pt => hexS (Real.Secp.sec true pt) ++ " " ++ hexS (Real.Secp.sec false pt))
